@@ -452,7 +452,7 @@ def builtin_cases():
             k = 0
             for r in range(1, len(usable) + 1):
                 for combo in itertools.combinations(usable, r):
-                    if 'sc' in combo and ('kids' in combo or 'text' in combo or 'selfkid' in combo or 'selfgrandkid' in combo):
+                    if 'sc' in combo and ('kids' in combo or 'selfkid' in combo or 'selfgrandkid' in combo):
                         continue
                     k += 1
                     # all single decorations and pairs; larger subsets thinned deterministically
